@@ -508,3 +508,173 @@ Proof.
   destruct (drain_unreg _ _ _) as [u f]. simpl.
   destruct (take_first i (c_texit c)) as [[b e]|]; eauto.
 Qed.
+
+(* ---------- no deadlock in the model (modulo items left in queues nobody reads) ---------- *)
+
+Definition quiescent (c : config) : Prop :=
+  c_hjoin c = [] /\ c_hunreg c = [] /\ c_inits c = [] /\ c_treg c = [] /\ c_tunreg c = [] /\ c_texit c = [] /\
+  forall s, s_detachq (c_sess c s) = [].
+
+(* an item whose reader does not exist (any more): the run loop of the instance has returned
+   (topic.go:586-588 returns right after handleTopicTermination; nothing drains reg/unreg/exit) *)
+Definition no_dead_items (c : config) : Prop :=
+  (forall x, In x (c_inits c) -> i_phase (c_inst c (fst x)) = PInit) /\
+  (forall x, In x (c_treg c) -> i_phase (c_inst c (fst x)) <> PDead) /\
+  (forall x, In x (c_tunreg c) -> i_phase (c_inst c (fst x)) <> PDead) /\
+  (forall x, In x (c_texit c) -> i_phase (c_inst c (fst x)) <> PDead).
+
+(* every instance being initialised has its topicInit goroutine *)
+Definition init_has_goroutine (c : config) : Prop :=
+  forall i, i_phase (c_inst c i) = PInit -> has_tag i (c_inits c) = true.
+
+Lemma has_tag_take_other : forall (A : Type) i j (l : list (inst * A)) a l',
+  take_first j l = Some (a, l') -> i <> j -> has_tag i l' = has_tag i l.
+Proof.
+  intros A i j l a l' H Hne. apply take_first_spec in H. destruct H as (l1 & l2 & -> & -> & _).
+  rewrite !has_tag_app. simpl. destruct (Nat.eqb_spec i j); [contradiction|]. reflexivity.
+Qed.
+
+Lemma init_has_goroutine_step : forall c l c', init_has_goroutine c -> step c l c' -> init_has_goroutine c'.
+Proof.
+  intros c l c' H Hs. unfold step in Hs. unfold init_has_goroutine in *.
+  destruct l; simpl in Hs.
+  - destruct (s_term (c_sess c s) || negb (s_inflight (c_sess c s) =? 0)); [discriminate|].
+    destruct (lookup t (s_subs (c_sess c s))); inv_some; simpl; auto.
+  - destruct (s_term (c_sess c s) || negb (s_inflight (c_sess c s) =? 0)); [discriminate|].
+    destruct (lookup t (s_subs (c_sess c s))); inv_some; simpl; auto.
+  - destruct (s_term (c_sess c s) || negb (c_user c s =? c_owner c t)); [discriminate|].
+    inv_some; simpl; auto.
+  - destruct (c_hjoin c) as [|r rest] eqn:E; [discriminate|]. simpl in Hs.
+    destruct (c_table c (r_topic r)) as [i|].
+    + destruct (inactive (c_inst c i)); inv_some; simpl; auto.
+    + inv_some; simpl. intros i. unfold upd. rewrite has_tag_app. simpl.
+      destruct (Nat.eqb_spec i (c_next c)); simpl.
+      * intros _. apply orb_true_r.
+      * intros Hp. rewrite (H _ Hp). reflexivity.
+  - destruct (is_init (i_phase (c_inst c i))) eqn:Ep; [|discriminate]. simpl in Hs.
+    destruct (take_first i (c_inits c)) as [[r inits']|] eqn:E; [|discriminate].
+    simpl in Hs. destruct ok.
+    + destruct (negb (c_store c (i_name (c_inst c i)))); [discriminate|].
+      destruct (i_deleted (c_inst c i)); inv_some; simpl; intros j; unfold upd;
+        destruct (Nat.eqb_spec j i); simpl; try discriminate; intros Hp;
+        rewrite (has_tag_take_other _ j i _ _ _ E); auto.
+    + unfold requeue_reg in Hs. simpl in Hs.
+      destruct (drain_unreg i (c_tunreg c) _) as [unreg' f'] eqn:Ed. simpl in Hs.
+      destruct (take_first i (c_texit c)) as [[b exit']|]; inv_some; simpl; intros j; unfold upd;
+        destruct (Nat.eqb_spec j i); simpl; try discriminate; intros Hp;
+        rewrite (has_tag_take_other _ j i _ _ _ E); auto.
+  - destruct (negb (is_run (i_phase (c_inst c i)))) eqn:Ep; [discriminate|].
+    destruct (take_first i (c_treg c)) as [[r reg']|] eqn:E; [|discriminate].
+    simpl in Hs. inv_some.
+    destruct (inactive (c_inst c i)); [simpl; auto|].
+    destruct (lookup _ _); [simpl; auto|].
+    destruct ok; simpl; auto.
+    intros j. unfold upd. destruct (Nat.eqb_spec j i); subst; simpl; auto.
+  - destruct (negb (is_run (i_phase (c_inst c i)))) eqn:Ep; [discriminate|].
+    destruct (take_first i (c_tunreg c)) as [[r unreg']|] eqn:E; [|discriminate].
+    simpl in Hs. inv_some.
+    assert (Hgen : forall c2, c_inits c2 = c_inits c ->
+              (forall j, i_phase (c_inst c2 j) = PInit -> i_phase (c_inst c j) = PInit) ->
+              forall j, i_phase (c_inst c2 j) = PInit -> has_tag j (c_inits c2) = true).
+    { intros c2 E1 E2 j Hj. rewrite E1. auto. }
+    destruct (r_init r); simpl.
+    + destruct (inactive (c_inst c i)); [simpl; auto|].
+      destruct (r_kind r) as [|[|]|]; simpl.
+      * destruct (mem _ _); simpl; auto. intros j. unfold upd. destruct (Nat.eqb_spec j i); subst; simpl; auto.
+      * destruct (_ =? _); simpl; auto. intros j. unfold upd. destruct (Nat.eqb_spec j i); subst; simpl; auto.
+      * destruct (mem _ _); simpl; auto. intros j. unfold upd. destruct (Nat.eqb_spec j i); subst; simpl; auto.
+      * destruct (mem _ _); simpl; auto. intros j. unfold upd. destruct (Nat.eqb_spec j i); subst; simpl; auto.
+    + destruct (inactive (c_inst c i)); [simpl; auto|].
+      destruct (mem _ _); simpl; auto. intros j. unfold upd. destruct (Nat.eqb_spec j i); subst; simpl; auto.
+  - destruct (negb (is_run (i_phase (c_inst c i))) || negb (mem s (i_sessions (c_inst c i)))); [discriminate|].
+    destruct (inactive (c_inst c i)); inv_some; simpl; auto.
+    intros j. unfold upd. destruct (Nat.eqb_spec j i); subst; simpl; auto.
+  - destruct (negb (is_run (i_phase (c_inst c i)))); [discriminate|].
+    destruct (i_sessions (c_inst c i)); inv_some; simpl; auto.
+  - destruct (c_hunreg c) as [|[t|r] rest]; [discriminate| |]; simpl in Hs.
+    + destruct (c_table c t) as [i|]; inv_some; simpl; auto.
+      intros j. unfold upd. destruct (Nat.eqb_spec j i); subst; simpl; auto.
+    + destruct (c_table c (r_topic r)) as [i|].
+      * destruct (is_init (i_phase (c_inst c i)) && negb ownerVisible); inv_some; simpl; auto.
+        intros j. unfold upd. destruct (Nat.eqb_spec j i); subst; simpl; auto.
+      * destruct (c_store c (r_topic r)); inv_some; simpl; auto.
+  - destruct (negb (is_run (i_phase (c_inst c i)))); [discriminate|].
+    destruct (take_first i (c_texit c)) as [[b exit']|]; inv_some; simpl.
+    intros j. unfold upd. destruct (Nat.eqb_spec j i); subst; simpl; auto. discriminate.
+  - destruct (s_detachq (c_sess c s)); inv_some; simpl; auto.
+  - destruct (s_term (c_sess c s)); inv_some; simpl; auto.
+  - destruct (negb (s_term (c_sess c s)) || s_done (c_sess c s) || negb (s_inflight (c_sess c s) =? 0)); inv_some; simpl; auto.
+Qed.
+
+Lemma init_has_goroutine_reach : forall st ow us c, reach st ow us c -> init_has_goroutine c.
+Proof.
+  induction 1.
+  - intros i. simpl. discriminate.
+  - eapply init_has_goroutine_step; eauto.
+Qed.
+
+Lemma in_has_tag : forall (A : Type) (l : list (inst * A)) x, In x l -> has_tag (fst x) l = true.
+Proof.
+  intros. unfold has_tag. apply existsb_exists. exists x. split; auto. apply Nat.eqb_refl.
+Qed.
+
+Lemma tagged_item_progress : forall c, init_has_goroutine c ->
+  forall (A : Type) (l : list (inst * A)) x,
+  In x l -> i_phase (c_inst c (fst x)) <> PDead ->
+  (i_phase (c_inst c (fst x)) = PRun -> has_tag (fst x) l = true -> exists lb c', step c lb c') ->
+  exists lb c', step c lb c'.
+Proof.
+  intros c Hg A l x Hin Hnd Hrun.
+  destruct (i_phase (c_inst c (fst x))) eqn:Ep; try congruence.
+  - destruct (initdone_enabled c (fst x) Ep (Hg _ Ep)) as [c' Hc]. eauto.
+  - apply Hrun; auto. apply in_has_tag. auto.
+Qed.
+
+Lemma nil_or_in : forall (A : Type) (l : list A), l = [] \/ exists x, In x l.
+Proof. intros A [|x l]; [left; auto|right; exists x; left; auto]. Qed.
+
+Lemma no_stuck_partial : forall st ow us c,
+  reach st ow us c -> no_dead_items c -> (forall l c', ~ step c l c') -> quiescent c.
+Proof.
+  intros st ow us c Hr (D1 & D2 & D3 & D4) Hstuck.
+  pose proof (init_has_goroutine_reach _ _ _ _ Hr) as Hg.
+  assert (Hno : forall P : Prop, (exists lb c', step c lb c') -> P).
+  { intros P (lb & c' & Hs). exfalso. eapply Hstuck; eauto. }
+  unfold quiescent. repeat split.
+  - destruct (c_hjoin c) eqn:E; auto. apply Hno.
+    destruct (hubjoin_enabled c) as [c' Hc]; [congruence|eauto].
+  - destruct (c_hunreg c) eqn:E; auto. apply Hno.
+    destruct (hubunreg_enabled c) as [c' Hc]; [congruence|eauto].
+  - destruct (nil_or_in _ (c_inits c)) as [E|[x Hin]]; auto. apply Hno.
+    destruct (initdone_enabled c (fst x) (D1 _ Hin) (in_has_tag _ _ _ Hin)) as [c' Hc]. eauto.
+  - destruct (nil_or_in _ (c_treg c)) as [E|[x Hin]]; auto. apply Hno.
+    eapply (tagged_item_progress c Hg _ _ x Hin (D2 _ Hin)).
+    intros Hp Ht. destruct (topicreg_enabled c _ Hp Ht) as [c' Hc]. eauto.
+  - destruct (nil_or_in _ (c_tunreg c)) as [E|[x Hin]]; auto. apply Hno.
+    eapply (tagged_item_progress c Hg _ _ x Hin (D3 _ Hin)).
+    intros Hp Ht. destruct (topicunreg_enabled c _ Hp Ht) as [c' Hc]. eauto.
+  - destruct (nil_or_in _ (c_texit c)) as [E|[x Hin]]; auto. apply Hno.
+    eapply (tagged_item_progress c Hg _ _ x Hin (D4 _ Hin)).
+    intros Hp Ht. destruct (topicexit_enabled c _ Hp Ht) as [c' Hc]. eauto.
+  - intros s. destruct (s_detachq (c_sess c s)) eqn:E; auto. apply Hno.
+    destruct (sessdetach_enabled c s) as [c' Hc]; [congruence|eauto].
+Qed.
+
+(* The lost leave: the topic exits while the session still holds its subscription (the detach
+   notice is waiting in Session.detach); the session's {leave} goes to the unreg channel of the
+   instance whose run loop has returned.  Nothing is enabled any more, yet the request is still
+   queued and the session's in-flight semaphore stays taken. *)
+Definition lost_leave_trace : list label :=
+  [ClientSub 1 1; HubJoin; InitDone 0 true; TopicReg 0 true;
+   ClientDel 2 1; HubUnreg true; TopicExit 0; ClientLeave 1 1 false; SessDetach 1].
+
+Lemma lost_leave_stuck :
+  exists c, run lost_leave_trace (init_config ex_stored ex_owner ex_user) = Some c /\
+            c_tunreg c <> [] /\ s_inflight (c_sess c 1) = 1 /\
+            c_hjoin c = [] /\ c_hunreg c = [] /\ c_inits c = [] /\ c_treg c = [] /\ c_texit c = [] /\
+            i_phase (c_inst c 0) = PDead /\ (forall x, In x (c_tunreg c) -> fst x = 0).
+Proof.
+  eexists. split; [vm_compute; reflexivity|]. simpl.
+  repeat split; try discriminate; auto.
+  intros x [<-|[]]. reflexivity.
+Qed.
